@@ -505,6 +505,17 @@ func ruleProvSign(c *Ctx, r *Rep) {
 		}
 		expectSet(r, "returns-signed|"+fk, c.Pos(ret.Pos()), pv.Origins(rr[0]), "the returned certificate is the one whose TBS was signed", out)
 	}
+	// callers pass the configured signature algorithm unchanged
+	for _, f2 := range c.Funcs {
+		for _, ci := range callsIn(f2) {
+			if ci.Common().StaticCallee() != fn {
+				continue
+			}
+			ao := pv.Origins(ci.Common().Args[1])
+			ok := len(ao) == 1 && strings.HasPrefix(ao[0], "P(") && strings.HasSuffix(ao[0], ".SignatureAlgorithm")
+			r.Check(ok, "algorithm-as-configured|"+c.FuncKey(f2), c.Pos(ci.Pos()), "the signing function is called with the configuration's SignatureAlgorithm itself (a mismatch with the key must surface as an error)", strings.Join(ao, " , "))
+		}
+	}
 	// nobody else writes into a Certificate's TBS
 	for _, f2 := range c.Funcs {
 		if f2 == fn {
